@@ -563,6 +563,57 @@ def run(tier="quick"):
             continue
         n13 += len(check_done(chk, prog, f, rule="O13"))
     chk.count("fields_released_by_other_methods", n13, floor=5)
+    # O14 what done() tests before it releases the buffer is true whenever a buffer is held: where a class's done() releases its
+    # buffer under `if (self->size)`, no method may leave the object with a buffer and size 0 (a zero-byte block from
+    # malloc(0) is a real allocation) - CAP's exit states of the constructors and mutators, one obligation per exit
+    chk.rule("O14", "the condition under which done() releases the buffer holds whenever the object holds a buffer")
+    from .. import capdrv
+    from ..cap import Cap
+    n14 = 0
+    for f in dones:
+        rec = classinfo.rec_of_param(f, 0)
+        inv = capdrv.INV.get(rec)
+        if inv is None or inv.get("array") or rec in ("spif_url_t_struct", "spif_regexp_t_struct"):
+            continue
+        guard = None
+        for c in X.calls_in(f.body):
+            if own.release_kind(c) == "free" and c["ch"][1:] and self_field(c["ch"][-1] if X.callee_name(c) == "spifmem_free" else c["ch"][1]) == inv["buf"]:
+                for anc in f.ancestors(c):
+                    if anc.get("k") == "if" and any(y is c for y in walk(anc["then"])):
+                        flds = {self_field(y) for y in walk(anc["cond"]) if self_field(y) is not None}
+                        guard = "buf" if inv["buf"] in flds else ("size" if "size" in flds else guard)
+                        break
+        if guard != "size":
+            chk.note("O14: %s releases its buffer %s" % (f.name, "whenever it is non-NULL" if guard == "buf" else "unconditionally / under a test this rule does not read"))
+            continue
+        saved = inv.get("release_guard")
+        inv["release_guard"] = "size"
+        try:
+            for g in f.unit.functions.values():
+                if g.body is None or g.cfg is None or not re.search(r"_(init|init_from_\w+|new|new_from_\w+|dup|trim|clear|subbuff|substr|splice|splice_from_ptr|append|prepend)$", g.name):
+                    continue
+                if classinfo.rec_of_param(g, 0) != rec and capdrv.rec_of_type(g.j.get("retc") or g.j.get("ret")) != rec:
+                    continue
+                cp = Cap(prog, noreturn=NORETURN)
+                try:
+                    capdrv.analyse(prog, g, cp)
+                except Exception as e:
+                    chk.note("O14: %s not analysed (%s)" % (g.name, str(e)[:60]))
+                    continue
+                obs = [o for o in cp.obls if o.kind == "relguard"]
+                if not obs:
+                    continue
+                n14 += 1
+                bad = [o for o in obs if not o.ok and not o.undecided]
+                chk.ob("O14", g.name, "buffer-implies-release-guard", not bad, loc=g.loc(bad[0].node) if bad else g.loc(g.body),
+                       detail="%s; witness %s" % (bad[0].detail, bad[0].witness) if bad else "",
+                       proof="every exit that leaves a buffer in the object leaves size >= 1")
+        finally:
+            if saved is None:
+                inv.pop("release_guard", None)
+            else:
+                inv["release_guard"] = saved
+    chk.count("methods_checked_against_the_release_guard", n14)
     # O2
     stores = fresh_field_stores(prog, FILES)
     done_of = {classinfo.rec_of_param(f, 0): f for f in dones}
